@@ -33,7 +33,7 @@ func (rw *readWriter) Read(p []byte) (n int, err error) {
 	rw.m.Lock()
 	defer rw.m.Unlock()
 
-	if !rw.closed.Load() && rw.buf.Len() == 0 {
+	for !rw.closed.Load() && rw.buf.Len() == 0 {
 		verifhook.At("rw.read.beforeWait")
 		rw.cv.Wait()
 	}
